@@ -871,8 +871,9 @@ def _vox_instances(tier):
            dict(kind='surface', count=1, num_procs=4, grid=[3, 2, 3], use_cubes=True),
            dict(kind='volume', count=1, num_procs=2, grid=[3, 3, 3], use_cubes=False),
            # a non-default in/out padding has to reach the worker processes
-           dict(kind='volume', count=1, num_procs=2, grid=[3, 3, 3], use_cubes=False, tol='1/5'),
-           dict(kind='surface', count=1, num_procs=2, grid=[3, 3, 2], use_cubes=False, tol='1/4')]
+           # (values for which the padding changes the filled flags of these shapes: 22 -> 26 and 36 -> 39 voxels)
+           dict(kind='volume', count=1, num_procs=2, grid=[3, 3, 3], use_cubes=False, tol='1/2'),
+           dict(kind='volume', count=1, num_procs=2, grid=[4, 4, 4], use_cubes=False, tol='1/5')]
     if tier == 'thorough':
         out += [dict(kind='surface', count=3, num_procs=8, grid=[4, 4, 4], use_cubes=False),
                 dict(kind='volume', count=2, num_procs=4, grid=[4, 3, 5], use_cubes=True)]
@@ -922,6 +923,9 @@ def voxelize_num_procs(ctx, kind, count, num_procs, grid, use_cubes, tol=None):
                    num_procs=num_procs, **extra)
     ctx.check_true('pool.used_with_num_procs', stats['pools'] == count and stats['processes'] == [num_procs] * count,
                    'pools opened: %r' % (stats,))
+    if tol is not None:
+        _gd, fd = vz.voxelize(build(), grid_size=tuple(grid), use_cubes=use_cubes)
+        ctx.check_true('setup.option_changes_the_answer', list(fd) != list(f0), 'tol=%s gives the default flags: vacuous instance' % tol)
     ctx.check_true('reference.nonempty', len(g0) >= 8 and len(f0) == len(g0) and 0 < sum(f0) <= len(f0),
                    '%d voxels, %d flags, %d filled' % (len(g0), len(f0), sum(f0)))
     for tag, g, f in (('num_procs=1', g1, f1), ('num_procs=%d' % num_procs, gn, fn)):
